@@ -3,6 +3,7 @@
 package cl
 
 import (
+	"math"
 	"math/big"
 
 	"github.com/ohler55/slip"
@@ -43,6 +44,10 @@ func (f *Lcm) Call(s *slip.Scope, args slip.List, depth int) slip.Object {
 		var num slip.Fixnum
 		switch ta := a.(type) {
 		case slip.Fixnum:
+			if ta == math.MinInt64 {
+				// The magnitude is not a fixnum.
+				return bigLcm(s, args, depth)
+			}
 			num = ta
 		case *slip.Bignum:
 			return bigLcm(s, args, depth)
@@ -58,7 +63,11 @@ func (f *Lcm) Call(s *slip.Scope, args slip.List, depth int) slip.Object {
 		if i == 0 { // first one
 			z = num
 		} else {
-			z = z * num / gcd(z, num)
+			q := z / gcd(z, num)
+			if z = q * num; z/num != q {
+				// The multiple is not a fixnum.
+				return bigLcm(s, args, depth)
+			}
 		}
 	}
 	return z
